@@ -21,7 +21,8 @@ BOUNDS = {
     "quick": "ab/explicit with ALL subsets fixed; abc/explicit and at/explicit with <=1 fixed; assume-edge states from abc/explicit; diamonds with <=1 fixed",
     "thorough": "abc/explicit, at/explicit with <=2 fixed; abt, abc/generated (leaves only), d3/abc, diamonds <=2; assume-edges from abt",
 }
-QUICK = [("ab/explicit", 9, "fix"), ("abc/explicit", 1, "fix"), ("at/explicit", 1, "fix"), ("diamond/explicit", 1, "fix"), ("abc/explicit", 1, "assume"), ("mix3/abt/explicit", 1, "fix"), ("wide/1", 1, "assume")]
+QUICK = [("ab/explicit", 9, "fix"), ("abc/explicit", 1, "fix"), ("at/explicit", 1, "fix"), ("diamond/explicit", 1, "fix"), ("abc/explicit", 1, "assume"), ("mix3/abt/explicit", 1, "fix"), ("wide/1", 1, "assume"),
+         ("alt/mix3+abt+explicit", 1, "fix"), ("alt/mix3b+abt+explicit", 1, "fix")]
 THOROUGH = [("ab/explicit", 9, "fix"), ("abc/explicit", 2, "fix"), ("at/explicit", 2, "fix"), ("diamond/explicit", 2, "fix"),
             ("abt/explicit", 1, "fix"), ("abc/generated", 1, "fix"), ("d3/abc/explicit", 1, "fix"), ("abc/explicit", 1, "assume"),
             ("abt/explicit", 1, "assume"), ("diamond/explicit", 1, "assume")]
